@@ -391,7 +391,7 @@ pub fn source(p: &Prog) -> Source {
         }
         methods = Some(ms_out);
     }
-    let expected_defs = if p.actor.is_some() {
+    let expected_defs: Vec<String> = if p.actor.is_some() {
         // reachability through variables
         let mut seen: BTreeSet<String> = BTreeSet::new();
         let mut work: Vec<String> = vec![];
@@ -413,6 +413,19 @@ pub fn source(p: &Prog) -> Source {
     } else {
         all_defs.clone()
     };
+    // anonymous types inside definitions that need not be emitted need no item either
+    for (n, t) in &p.defs {
+        if !expected_defs.contains(n) {
+            let mut inner = vec![];
+            walk(t, n, Ctx::Def, &mut inner);
+            let paths: BTreeSet<String> = inner.into_iter().map(|a| a.path).collect();
+            for a in subterms.iter_mut() {
+                if paths.contains(&a.path) {
+                    a.needs_item = false;
+                }
+            }
+        }
+    }
     Source { env, expected_defs, all_defs, subterms, methods, init_args }
 }
 
@@ -428,17 +441,47 @@ pub fn equal_src(src: &Source, s: &Ty, d: &Dumped) -> bool {
     sub::equal(&merged, s, &d.ty)
 }
 
-#[derive(Clone, Debug)]
-pub struct Finding {
-    pub clause: &'static str,
-    pub detail: String,
+/// Result of relating the exported items of one module to the source program.
+#[derive(Clone, Debug, Default)]
+pub struct ItemReport {
+    /// items whose exported type is unreadable or is no definition / sub-term of the source
+    pub unexplained: Vec<String>,
+    /// definitions whose item (by name) carries a different type
+    pub def_mismatch: Vec<String>,
+    /// canonical description of the first difference of the first mismatching definition
+    pub signature: Option<String>,
+    /// fallback description: the type of the first unexplained item
+    pub item_signature: Option<String>,
+    /// definitions without any item
+    pub lost: Vec<String>,
+    /// anonymous types that cannot be written in place and have no item of their type
+    pub unmatched_anon: Vec<String>,
+    pub comparisons: u64,
+}
+
+/// Lower bound on the number of distinct Rust items the program needs: one per expected
+/// definition plus one per class (structural equality) of anonymous types that cannot be
+/// written in place and are not equal to a definition (those may share the definition's item).
+pub fn required_items(src: &Source) -> (usize, Vec<String>) {
+    let mut reps: Vec<&Anon> = vec![];
+    for a in src.subterms.iter().filter(|a| a.needs_item) {
+        if src.expected_defs.iter().any(|d| sub::equal(&src.env, &Ty::Var(sname(d)), &a.ty)) {
+            continue;
+        }
+        if reps.iter().any(|r| sub::equal(&src.env, &r.ty, &a.ty)) {
+            continue;
+        }
+        reps.push(a);
+    }
+    let mut names: Vec<String> = src.expected_defs.iter().map(|d| format!("definition {d}")).collect();
+    names.extend(reps.iter().map(|a| format!("anonymous {} = {}", a.path, a.ty)));
+    (src.expected_defs.len() + reps.len(), names)
 }
 
 /// Post-compile comparison of one module. `items`: (item name, exported type or the reason
-/// it could not be read). Returns findings and the number of comparisons made.
-pub fn compare_items(src: &Source, items: &[(String, Result<Dumped, String>)]) -> (Vec<Finding>, u64) {
-    let mut out = vec![];
-    let mut compared = 0u64;
+/// it could not be read).
+pub fn compare_items(src: &Source, items: &[(String, Result<Dumped, String>)]) -> ItemReport {
+    let mut out = ItemReport::default();
     let mut by_norm: BTreeMap<String, Vec<usize>> = BTreeMap::new();
     for (i, it) in items.iter().enumerate() {
         by_norm.entry(norm(&it.0)).or_default().push(i);
@@ -446,16 +489,16 @@ pub fn compare_items(src: &Source, items: &[(String, Result<Dumped, String>)]) -
     // every item: readable, and equal to some source definition or sub-term
     for (name, d) in items {
         match d {
-            Err(e) => out.push(Finding { clause: "type-differs", detail: format!("item {name}: {e}") }),
+            Err(e) => out.unexplained.push(format!("item {name}: {e}")),
             Ok(d) => {
-                compared += 1;
+                out.comparisons += 1;
                 let hit = src.all_defs.iter().any(|n| equal_src(src, &Ty::Var(sname(n)), d))
                     || src.subterms.iter().any(|a| equal_src(src, &a.ty, d));
                 if !hit {
-                    out.push(Finding {
-                        clause: "type-differs",
-                        detail: format!("item {name} has Candid type {} (knots {}) which is no definition or sub-term of the source", d.ty, env_line(&d.knots)),
-                    });
+                    if out.item_signature.is_none() {
+                        out.item_signature = Some(format!("item of type {}", d.ty));
+                    }
+                    out.unexplained.push(format!("item {name} has Candid type {} (knots {}) which is no definition or sub-term of the source", d.ty, env_line(&d.knots)));
                 }
             }
         }
@@ -464,15 +507,14 @@ pub fn compare_items(src: &Source, items: &[(String, Result<Dumped, String>)]) -
     for n in &src.expected_defs {
         let sty = Ty::Var(sname(n));
         let cands: Vec<usize> = by_norm.get(&norm(n)).cloned().unwrap_or_default();
+        out.comparisons += 1;
         if cands.is_empty() {
-            compared += 1;
             let any = items.iter().any(|it| matches!(&it.1, Ok(d) if equal_src(src, &sty, d)));
             if !any {
-                out.push(Finding { clause: "lost-definition", detail: format!("definition {n}: no emitted item is named after it and none has its type") });
+                out.lost.push(format!("definition {n}: no emitted item is named after it and none has its type"));
             }
             continue;
         }
-        compared += 1;
         let ok = cands.iter().any(|i| matches!(&items[*i].1, Ok(d) if equal_src(src, &sty, d)));
         if !ok {
             let shown: Vec<String> = cands
@@ -482,10 +524,29 @@ pub fn compare_items(src: &Source, items: &[(String, Result<Dumped, String>)]) -
                     Err(e) => format!("{}: {e}", items[*i].0),
                 })
                 .collect();
-            out.push(Finding {
-                clause: "type-differs",
-                detail: format!("definition {n} = {} but the item generated for it is {}", src.env.get(&sname(n)).map(|t| t.to_string()).unwrap_or_default(), shown.join(" / ")),
-            });
+            if out.signature.is_none() {
+                // describe the difference against the candidate that is not already the item of
+                // another definition
+                let free: Vec<usize> = cands
+                    .iter()
+                    .copied()
+                    .filter(|i| match &items[*i].1 {
+                        Ok(d) => {
+                            !src.expected_defs.iter().any(|o| o != n && equal_src(src, &Ty::Var(sname(o)), d))
+                                && !src.subterms.iter().any(|a| a.needs_item && equal_src(src, &a.ty, d))
+                        }
+                        Err(_) => false,
+                    })
+                    .collect();
+                if let Some(Ok(d)) = free.first().or(cands.first()).map(|i| &items[*i].1) {
+                    out.signature = diff(&src.env.merge_disjoint(&d.knots), &sty, &d.ty);
+                }
+            }
+            out.def_mismatch.push(format!(
+                "definition {n} = {} but the item generated for it is {}",
+                src.env.get(&sname(n)).map(|t| t.to_string()).unwrap_or_default(),
+                shown.join(" / ")
+            ));
         }
     }
     // every anonymous type that cannot be written in place has an item of its own type
@@ -493,13 +554,13 @@ pub fn compare_items(src: &Source, items: &[(String, Result<Dumped, String>)]) -
         if !a.needs_item {
             continue;
         }
-        compared += 1;
+        out.comparisons += 1;
         let ok = items.iter().any(|it| matches!(&it.1, Ok(d) if equal_src(src, &a.ty, d)));
         if !ok {
-            out.push(Finding { clause: "collapse", detail: format!("anonymous type at {} = {} has no Rust item of its own type (its use site refers to an item with a different type)", a.path, a.ty) });
+            out.unmatched_anon.push(format!("anonymous type at {} = {} has no Rust item of its own type", a.path, a.ty));
         }
     }
-    (out, compared)
+    out
 }
 
 pub fn env_line(e: &Env) -> String {
@@ -508,22 +569,97 @@ pub fn env_line(e: &Env) -> String {
 }
 
 /// Compare one exported argument/result list with the source's.
-pub fn compare_tys(src: &Source, what: &str, want: &[Ty], got: &[Option<Result<Dumped, String>>]) -> Option<String> {
+/// Returns (message, canonical signature of the difference).
+pub fn compare_tys(src: &Source, what: &str, want: &[Ty], got: &[Option<Result<Dumped, String>>]) -> Option<(String, String)> {
     if want.len() != got.len() {
-        return Some(format!("{what}: arity {} in the source, {} emitted", want.len(), got.len()));
+        let m = format!("arity {} in the source, {} emitted", want.len(), got.len());
+        return Some((format!("{what}: {m}"), m));
     }
     for (i, (w, g)) in want.iter().zip(got).enumerate() {
         match g {
-            None => return Some(format!("{what}[{i}]: no type exported")),
-            Some(Err(e)) => return Some(format!("{what}[{i}]: {e}")),
+            None => return Some((format!("{what}[{i}]: no type exported"), "no type exported".into())),
+            Some(Err(e)) => return Some((format!("{what}[{i}]: {e}"), e.clone())),
             Some(Ok(d)) => {
                 if !equal_src(src, w, d) {
-                    return Some(format!("{what}[{i}]: source {} but emitted {} (knots {})", w, d.ty, env_line(&d.knots)));
+                    let sig = diff(&src.env.merge_disjoint(&d.knots), w, &d.ty).unwrap_or_else(|| "differs".into());
+                    return Some((format!("{what}[{i}]: source {} but emitted {} (knots {})", w, d.ty, env_line(&d.knots)), sig));
                 }
             }
         }
     }
     None
+}
+
+fn ctor(t: &Ty) -> String {
+    match t {
+        Ty::Prim(p) => p.name().to_string(),
+        Ty::Var(v) => format!("var {v}"),
+        Ty::Opt(_) => "opt".into(),
+        Ty::Vec(_) => "vec".into(),
+        Ty::Record(fs) => format!("record{{{}}}", fs.iter().map(|f| f.0.to_string()).collect::<Vec<_>>().join(",")),
+        Ty::Variant(fs) => format!("variant{{{}}}", fs.iter().map(|f| f.0.to_string()).collect::<Vec<_>>().join(",")),
+        Ty::Func(_) => "func".into(),
+        Ty::Service(_) => "service".into(),
+        Ty::Class(..) => "class".into(),
+        Ty::Future(..) => "future".into(),
+    }
+}
+
+/// Canonical description of the first difference between `a` (source) and `b` (emitted),
+/// walking both in field order; None if no difference is found.
+pub fn diff(env: &Env, a: &Ty, b: &Ty) -> Option<String> {
+    fn tys(env: &Env, what: &str, x: &[Ty], y: &[Ty], seen: &mut BTreeSet<(Ty, Ty)>) -> Option<String> {
+        if x.len() != y.len() {
+            return Some(format!("{what} arity {} vs {}", x.len(), y.len()));
+        }
+        x.iter().zip(y).find_map(|(p, q)| go(env, p, q, seen))
+    }
+    fn go(env: &Env, a: &Ty, b: &Ty, seen: &mut BTreeSet<(Ty, Ty)>) -> Option<String> {
+        if !seen.insert((a.clone(), b.clone())) {
+            return None;
+        }
+        let (ua, ub) = match (env.unf(a), env.unf(b)) {
+            (Ok(x), Ok(y)) => (x.clone(), y.clone()),
+            (Err(_), _) => return Some(format!("source side does not unfold: {a}")),
+            (_, Err(_)) => return Some(format!("emitted type does not unfold (vacuous cycle): {}", ctor(b))),
+        };
+        match (&ua, &ub) {
+            (Ty::Prim(p), Ty::Prim(q)) => (p != q).then(|| format!("{} vs {}", p.name(), q.name())),
+            (Ty::Opt(x), Ty::Opt(y)) | (Ty::Vec(x), Ty::Vec(y)) => go(env, x, y, seen),
+            (Ty::Record(f), Ty::Record(g)) | (Ty::Variant(f), Ty::Variant(g)) if std::mem::discriminant(&ua) == std::mem::discriminant(&ub) => {
+                let fi: BTreeSet<u32> = f.iter().map(|x| x.0).collect();
+                let gi: BTreeSet<u32> = g.iter().map(|x| x.0).collect();
+                if fi != gi {
+                    let only_f: Vec<String> = fi.difference(&gi).map(|x| x.to_string()).collect();
+                    let only_g: Vec<String> = gi.difference(&fi).map(|x| x.to_string()).collect();
+                    let k = if matches!(ua, Ty::Record(_)) { "record" } else { "variant" };
+                    return Some(format!("{k} labels {{{}}} emitted as {{{}}}", only_f.join(","), only_g.join(",")));
+                }
+                f.iter().zip(g).find_map(|(x, y)| go(env, &x.1, &y.1, seen))
+            }
+            (Ty::Func(f), Ty::Func(g)) => {
+                let mf: BTreeSet<_> = f.modes.iter().collect();
+                let mg: BTreeSet<_> = g.modes.iter().collect();
+                if mf != mg {
+                    return Some(format!("func modes {:?} vs {:?}", f.modes, g.modes));
+                }
+                tys(env, "func argument", &f.args, &g.args, seen).or_else(|| tys(env, "func result", &f.rets, &g.rets, seen))
+            }
+            (Ty::Service(m), Ty::Service(n)) => {
+                let mi: Vec<&String> = m.iter().map(|x| &x.0).collect();
+                let ni: Vec<&String> = n.iter().map(|x| &x.0).collect();
+                if mi != ni {
+                    return Some(format!("service methods {mi:?} emitted as {ni:?}"));
+                }
+                m.iter().zip(n).find_map(|(x, y)| go(env, &x.1, &y.1, seen))
+            }
+            (Ty::Record(f), _) if f.len() == 1 && f[0].0 == 0 && sub::equal(env, &f[0].1, b) => {
+                Some("record { 0 : T } emitted as T".to_string())
+            }
+            _ => Some(format!("{} emitted as {}", ctor(&ua), ctor(&ub))),
+        }
+    }
+    go(env, a, b, &mut BTreeSet::new())
 }
 
 #[cfg(test)]
